@@ -82,4 +82,29 @@ def devStep (acc : List Nat) : DevEv → List Nat
 
 def reduceDevices (log : List DevEv) : List Nat := log.foldl devStep []
 
+/-! ### The server's device log and the cached trusted set (`ServerAccountStorage`)
+
+`verify_device` consults the cache (`list_device_keys`), not the log.  `merge_device` appends a
+patch and re-reduces; `force_merge_device` (update_account) replaces the whole log and
+re-reduces. -/
+
+structure DevStore where
+  log : List DevEv
+  cache : List Nat
+deriving DecidableEq, Repr
+
+inductive DevOp where
+  | patch (evs : List DevEv)       -- merge_device: apply the patch, reduce, set_devices
+  | force (log : List DevEv)       -- force_merge_device: replace_all_events, reduce, set_devices
+deriving DecidableEq, Repr
+
+def DevStore.apply (s : DevStore) : DevOp → DevStore
+  | .patch evs => { log := s.log ++ evs, cache := reduceDevices (s.log ++ evs) }
+  | .force l => { log := l, cache := reduceDevices l }
+
+/-- account creation: the device log of the create set, reduced -/
+def DevStore.create (log : List DevEv) : DevStore := { log := log, cache := reduceDevices log }
+
+def DevStore.run (s : DevStore) (ops : List DevOp) : DevStore := ops.foldl DevStore.apply s
+
 end Sos.Auth
